@@ -412,7 +412,7 @@ def gen_bus_history(rng, nops=None, cfg=None):
         io_base = rng.choice([0x80000000, 0x80000000, 0xf0000000, focus, top // 2])
     else:
         gran = rng.choice([4, 0x10, 0x40, 0x100])
-        focus = rng.choice([0, 0, top // 2, top - 8 * gran, top // 4])
+        focus = max(0, rng.choice([0, 0, top // 2, top - 8 * gran, top // 4]))     # origins are never negative
         io_base = rng.choice([top // 2, focus, top - top // 4])
     names = list(range(1, 10))
     ops = []
